@@ -1,6 +1,7 @@
 import ElvModel.Go.Driver
 import ElvModel.C35.RefHtml
 import ElvModel.C35.Model
+import ElvModel.C35.Block
 namespace C35
 open Go
 
@@ -45,7 +46,8 @@ def entLine (h : String) : String :=
  `qi <hex quote marker> <hex item>` → `H <hex html>` for `a\n<quote marker><item>` (a list item in a block quote opened on the same line interrupts nothing)
  `gl <hex dest> <hex quoted title>` → as `doc` for `[a](<dest>title)` (a title needs whitespace before it)
  `line <0|1> <hex line>` → block ops elvish emits for a one-line document (model of md.go's line classifier and container openers)
- `emph <hex text>` → inline ops of elvish's delimiter-stack algorithm (model of inline.go processEmphasis) -/
+ `emph <hex text>` → inline ops of elvish's delimiter-stack algorithm (model of inline.go processEmphasis)
+ `blk <hex markdown>` → the block-structure trace of md.Render (model of the whole block phase of md.go, ElvModel/C35/Block.lean) -/
 def stepLineOp : List String → String
   | ["spec", _, hmd, hhtml] => specLine hmd hhtml
   | ["doc", hmd] => docLine hmd
@@ -83,6 +85,7 @@ def stepLineOp : List String → String
       | some got => s!"H {hexEnc got}"
     | _, _ => "bad-op"
   | ["emph", h] => emphOp h
+  | ["blk", h] => blkOp h
   | _ => "bad-op"
 
 def driver : Driver := Driver.pure stepLineOp
